@@ -114,3 +114,12 @@ Lemma d16_fixed_witness :
   let s := run (rinit true true true true) (d16_schedule ++ [LT 0 CStep; LT 0 CStep]) in
   thr s 0 = TClose (KRet true) /\ hwg s = 0 /\ h_removed (hs s 0) = true /\ h_inmap (hs s 0) = false /\ panicked s = false.
 Proof. vm_compute. repeat split. Qed.
+
+(** the Run context is cancelled BEFORE Run is called: Run still subscribes the handler (once), closes Running(),
+    the subscription ends at once, the router closes itself, Run returns nil *)
+Definition cancel_first_schedule : list label := LCancel :: firstn 10 cancel_schedule ++ skipn 11 cancel_schedule.
+Lemma cancel_before_run_witness :
+  let s := run (rinit true true true true) cancel_first_schedule in
+  mainp s = RDone true /\ runningCh s = true /\ h_subs (hs s 0) = 1 /\ h_stoppedCh (hs s 0) = true
+  /\ verdict (hist (rinit true true true true) cancel_first_schedule) = 0.
+Proof. vm_compute. repeat split. Qed.
